@@ -30,10 +30,14 @@ class QFact:
     python function from z3 terms to a z3 Bool; ground-instantiated over the
     term pool at discharge time (DESIGN 3.5)."""
 
-    def __init__(self, sorts, fn, name="", guard_int_range=None):
+    def __init__(self, sorts, fn, name="", guard_int_range=None, triggers=None):
         self.sorts = list(sorts)
         self.fn = fn
         self.name = name
+        # triggers: per variable, the name of an uninterpreted function whose
+        # argument terms (plus Skolem constants) are the only instantiation
+        # candidates for that variable (E-matching style; None = whole pool)
+        self.triggers = triggers
 
     def instantiate(self, *terms):
         return as_bool(self.fn(*terms))
@@ -115,15 +119,17 @@ def _index_terms(exprs, limit=400, want=("Int",)):
     return pool[:limit]
 
 
-def theory_axioms(exprs, max_pairs=60):
-    """Point axioms for the uninterpreted real functions (exp, log, sqrt, tanh,
-    ... : tensor.AXIOMS) and the real power function, generated for exactly
-    the applications that occur in the query (assumed library contracts)."""
-    from .tensor import AXIOMS
+_THEORY_APPS = {}
 
+
+def _theory_apps(top, AXIOMS):
+    """(name, application) of every axiomatised function application inside `top`"""
+    hit = _THEORY_APPS.get(top.get_id())
+    if hit is not None:
+        return hit[1]
+    found = []
     seen = set()
-    apps = {}
-    stack = list(exprs)
+    stack = [top]
     while stack:
         e = stack.pop()
         k = e.get_id()
@@ -137,8 +143,31 @@ def theory_axioms(exprs, max_pairs=60):
             if e.decl().kind() == z3.Z3_OP_UNINTERPRETED and e.num_args() > 0:
                 nm = e.decl().name()
                 if nm in AXIOMS or nm == "pow":
-                    apps.setdefault(nm, []).append(e)
+                    found.append((nm, e))
             stack.extend(e.children())
+    if len(_THEORY_APPS) > 200000:
+        _THEORY_APPS.clear()
+    _THEORY_APPS[top.get_id()] = (top, found)
+    return found
+
+
+def theory_axioms(exprs, max_pairs=60):
+    """Point axioms for the uninterpreted real functions (exp, log, sqrt, tanh,
+    ... : tensor.AXIOMS) and the real power function, generated for exactly
+    the applications that occur in the query (assumed library contracts)."""
+    from .tensor import AXIOMS
+
+    # the applications found in one top-level formula are memoised (the formula is
+    # pinned in the cache, so its id stays unique): path conditions are re-traversed
+    # at every branch otherwise
+    seen = set()
+    apps = {}
+    for top in exprs:
+        for nm, e in _theory_apps(top, AXIOMS):
+            k = e.get_id()
+            if k not in seen:
+                seen.add(k)
+                apps.setdefault(nm, []).append(e)
     out = []
     for nm, lst in apps.items():
         if nm == "pow":
@@ -201,13 +230,162 @@ def _has_var(e):
     return False
 
 
-def _instantiate(qfacts, pool_by_sort, cap=4000):
+SLOT = z3.Function("slot", INT, INT)
+
+
+def slot_rewrite(formulas, N):
+    """replace every normalisable  X mod N  by slot(a + c) (so that the solver
+    never has to reason about `mod` with a symbolic modulus) and return the
+    rewritten formulas plus the range facts of the slot applications"""
+    facts_all = []
+    for _ in range(4):
+        facts, subs = slot_axioms(formulas, N, want_subs=True)
+        subs = [(a, b) for a, b in subs if not z3.eq(a, b)]
+        if not subs:
+            facts_all = [f for f in facts if not (z3.is_eq(f) and f.arg(0).decl().kind() == z3.Z3_OP_MOD)]
+            break
+        formulas = [z3.substitute(f, *subs) for f in formulas]
+    facts, _ = slot_axioms(formulas, N, want_subs=True)
+    return formulas, [f for f in facts if not _mentions_mod(f, N)]
+
+
+def _mentions_mod(f, N):
+    seen = set()
+    stack = [f]
+    while stack:
+        e = stack.pop()
+        if e.get_id() in seen:
+            continue
+        seen.add(e.get_id())
+        if z3.is_app(e):
+            if e.decl().kind() == z3.Z3_OP_MOD and z3.eq(e.arg(1), N):
+                return True
+            stack.extend(e.children())
+    return False
+
+
+def slot_axioms(exprs, N, want_subs=False):
+    """Ring-buffer index normalisation (DESIGN 3.5 item 3).  slot(a) stands for
+    a mod N; every term  X mod N  in the query whose X is  slot(a) + c  (or
+    such a mod term again) is equated with slot(a + c), and every slot
+    application gets its range fact.  Justified by the three lemmas
+    range / shift / (injectivity is a quantified fact of the contract), which
+    are proved on raw `mod` for symbolic N >= 1 in the property's lemma tasks."""
+    out = []
+    seen = set()
+    mods = []
+    slots = []
+    stack = list(exprs)
+    while stack:
+        e = stack.pop()
+        k = e.get_id()
+        if k in seen:
+            continue
+        seen.add(k)
+        if z3.is_quantifier(e):
+            continue
+        if z3.is_app(e):
+            if e.decl().kind() == z3.Z3_OP_MOD and z3.eq(e.arg(1), N):
+                mods.append(e)
+            elif e.decl().kind() == z3.Z3_OP_UNINTERPRETED and e.decl().name() == "slot":
+                slots.append(e)
+            stack.extend(e.children())
+    memo = {}
+
+    def row_of(t):
+        """row expression r with t == slot(r), for t a slot application or a normalisable mod term"""
+        if t.get_id() in memo:
+            return memo[t.get_id()]
+        r = None
+        if z3.is_app(t) and t.decl().kind() == z3.Z3_OP_UNINTERPRETED and t.decl().name() == "slot":
+            r = t.arg(0)
+        elif z3.is_app(t) and t.decl().kind() == z3.Z3_OP_MOD and z3.eq(t.arg(1), N):
+            X = t.arg(0)
+            parts = _addends(X)
+            hit = None
+            for i, (coef, term) in enumerate(parts):
+                if coef == 1 and row_of(term) is not None:
+                    hit = i
+                    break
+            if hit is not None:
+                base = row_of(parts[hit][1])
+                rest = [c * x if c != 1 else x for j, (c, x) in enumerate(parts) if j != hit]
+                r = z3.simplify(base + sum(rest)) if rest else base
+                out.append(t == SLOT(r))
+                out.append(z3.And(SLOT(r) >= 0, SLOT(r) < N))
+        memo[t.get_id()] = r
+        return r
+
+    subs = []
+    for m in mods:
+        r = row_of(m)
+        if r is not None:
+            subs.append((m, SLOT(r)))
+    for sl in slots:
+        out.append(z3.And(sl >= 0, sl < N))
+    if want_subs:
+        return out, subs
+    return out
+
+
+def _addends(X):
+    """X as a list of (integer coefficient, term)"""
+    if z3.is_app(X) and X.decl().kind() == z3.Z3_OP_ADD:
+        out = []
+        for c in X.children():
+            out.extend(_addends(c))
+        return out
+    if z3.is_app(X) and X.decl().kind() == z3.Z3_OP_SUB:
+        ch = X.children()
+        out = _addends(ch[0])
+        for c in ch[1:]:
+            out.extend([(-k, t) for k, t in _addends(c)])
+        return out
+    if z3.is_app(X) and X.decl().kind() == z3.Z3_OP_UMINUS:
+        return [(-k, t) for k, t in _addends(X.arg(0))]
+    if z3.is_app(X) and X.decl().kind() == z3.Z3_OP_MUL and X.num_args() == 2 and z3.is_int_value(X.arg(0)):
+        return [(X.arg(0).as_long() * k, t) for k, t in _addends(X.arg(1))]
+    if z3.is_int_value(X):
+        return [(X.as_long(), z3.IntVal(1))]
+    return [(1, X)]
+
+
+SLOT_N = {"N": None}
+
+
+def _trigger_args(exprs, names):
+    out = {n: [] for n in names}
+    ids = {n: set() for n in names}
+    seen = set()
+    stack = list(exprs)
+    while stack:
+        e = stack.pop()
+        if e.get_id() in seen:
+            continue
+        seen.add(e.get_id())
+        if z3.is_quantifier(e):
+            continue
+        if z3.is_app(e):
+            if e.decl().kind() == z3.Z3_OP_UNINTERPRETED and e.num_args() > 0 and e.decl().name() in out:
+                for c in e.children():
+                    if c.get_id() not in ids[e.decl().name()]:
+                        ids[e.decl().name()].add(c.get_id())
+                        out[e.decl().name()].append(c)
+            stack.extend(e.children())
+    return out
+
+
+def _instantiate(qfacts, pool_by_sort, cap=4000, trig_args=None, skolems=()):
     out = []
     for q in qfacts:
         lists = []
         ok = True
-        for s in q.sorts:
+        for vi, s in enumerate(q.sorts):
             lst = pool_by_sort.get(str(s), [])
+            if q.triggers and trig_args is not None and q.triggers[vi]:
+                lst = list(skolems) + trig_args.get(q.triggers[vi], [])
+                seen_ids = set()
+                lst = [t for t in lst if str(t.sort()) == str(s) and not (t.get_id() in seen_ids or seen_ids.add(t.get_id()))]
             if not lst:
                 ok = False
                 break
@@ -256,7 +434,7 @@ def run_cvc5(smt2_text, timeout_s=CVC5_TIMEOUT_S):
 
 
 def prove(hyps, qfacts, goal, extra_pool=(), timeout_ms=None, want_model=True,
-          both=False, quick=False):
+          both=False, quick=False, pool_limit=None):
     """Decide  hyps /\\ qfacts |- goal.
 
     Returns (verdict, backend, seconds, model|None, smt2).  verdict:
@@ -273,13 +451,21 @@ def prove(hyps, qfacts, goal, extra_pool=(), timeout_ms=None, want_model=True,
     neg = z3.Not(goal)
     base = list(hyps) + [neg]
     ground = []
+    slotN = SLOT_N["N"]
+    slot_facts = []
+    if slotN is not None:
+        base, slot_facts = slot_rewrite(base, slotN)
     if qfacts:
         want = {"Int"}
         for q in qfacts:
             for srt in q.sorts:
                 want.add(str(srt))
         want = tuple(sorted(want))
-        pool = _index_terms(base, want=want) + [t for t in extra_pool]
+        # goal-directed order: Skolem constants and the goal's own index terms
+        # first (they survive the per-fact instantiation caps)
+        pool = [t for t in extra_pool] + _index_terms([base[-1]], want=want) + [z3.IntVal(0)] + _index_terms(base, want=want)
+        if pool_limit:
+            pool = pool[:pool_limit]
         by_sort = {}
         ids = set()
         for t in pool:
@@ -287,19 +473,33 @@ def prove(hyps, qfacts, goal, extra_pool=(), timeout_ms=None, want_model=True,
                 continue
             ids.add(t.get_id())
             by_sort.setdefault(str(t.sort()), []).append(t)
-        ground = _instantiate(qfacts, by_sort)
+        need_trig = {t for q in qfacts if q.triggers for t in q.triggers if t}
+        sk = [t for t in extra_pool]
+        trig_args = _trigger_args(base, need_trig) if need_trig else None
+        ground = _instantiate(qfacts, by_sort, trig_args=trig_args, skolems=sk)
+        if slotN is not None:
+            ground, _f = slot_rewrite(ground, slotN)
         # one closure round: instances may mention new index terms
         pool2 = _index_terms(ground, want=want)
         grew = False
         for t in pool2:
+            if pool_limit:
+                break
             if t.get_id() not in ids and len(ids) < 120:
                 ids.add(t.get_id())
                 by_sort.setdefault(str(t.sort()), []).append(t)
                 grew = True
         if grew:
-            ground = _instantiate(qfacts, by_sort)
+            if need_trig:
+                trig_args = _trigger_args(base + ground, need_trig)
+            ground = _instantiate(qfacts, by_sort, trig_args=trig_args, skolems=sk)
+            if slotN is not None:
+                ground, _f = slot_rewrite(ground, slotN)
     theory = theory_axioms(base + ground)
     ground = ground + theory
+    if slotN is not None:
+        allf, facts = slot_rewrite(base + ground, slotN)
+        base, ground = allf[: len(base)], allf[len(base):] + facts
     s = z3.Solver()
     s.set("timeout", timeout_ms)
     for h in base:
@@ -364,6 +564,12 @@ def feasible(hyps, timeout_ms=None):
         s.add(h)
     for h in theory_axioms(hyps):
         s.add(h)
+    if SLOT_N["N"] is not None:
+        hyps2, facts = slot_rewrite(list(hyps), SLOT_N["N"])
+        s = z3.Solver()
+        s.set("timeout", timeout_ms or BRANCH_TIMEOUT_MS)
+        for h in hyps2 + facts + theory_axioms(hyps2):
+            s.add(h)
     STATS.branch_queries += 1
     t0 = time.time()
     r = s.check()
@@ -420,8 +626,8 @@ class PathState:
         if name:
             self.pc_names[z.get_id()] = name
 
-    def assume_forall(self, sorts, fn, name=""):
-        self.qfacts.append(QFact(sorts, fn, name))
+    def assume_forall(self, sorts, fn, name="", triggers=None):
+        self.qfacts.append(QFact(sorts, fn, name, triggers=triggers))
 
     def add_pool(self, *terms):
         for t in terms:
@@ -464,10 +670,22 @@ class PathState:
         return d
 
     def _feasible(self, z):
+        if not feasible(self.pc + [z]):
+            return False
         if not self.qfacts:
-            return feasible(self.pc + [z])
+            return True
+        # pruning with the quantified facts: small instantiation budget (a
+        # branch wrongly kept is only extra work; obligations on it still get
+        # the full hypotheses)
         v, *_ = prove(self.pc, self.qfacts, z3.Not(z), extra_pool=self.pool,
-                      timeout_ms=BRANCH_TIMEOUT_MS, quick=True)
+                      timeout_ms=BRANCH_TIMEOUT_MS, quick=True, pool_limit=14)
+        if v == "unsat":
+            return False
+        if len(self.qfacts) <= 14:
+            # small context: afford the full instantiation (prunes e.g. guards
+            # that can only fire when a precondition is violated)
+            v, *_ = prove(self.pc, self.qfacts, z3.Not(z), extra_pool=self.pool,
+                          timeout_ms=2 * BRANCH_TIMEOUT_MS, quick=True)
         return v != "unsat"
 
     # -- obligations ----------------------------------------------------
@@ -498,7 +716,7 @@ class PathState:
 
             # goal-directed first (reductions occurring in the goal), then the full closure
             for scope in (z, None):
-                if T.close_sums(self, prove, goal=scope):
+                if T.close_sums(self, prove, goal=scope, budget_s=(None if scope is not None else 20)):
                     verdict, backend, dt2, model, smt2 = prove(
                         self.pc, qf, z, extra_pool=list(self.pool) + list(extra_pool), both=self.mode_both)
                     dt += dt2
